@@ -1,0 +1,35 @@
+//go:build verif
+
+// Contracts for package patterns/pool, read by /verif's gcv (comment-only file).
+package pool
+
+//@ type FixedPool
+//@   immutable: limit, ordering, limiter
+//@ type Pool
+//@   immutable: limiter
+
+// Safety half of C19 and the ordering wiring of C11: what a pool is built from.
+//@ func NewFixedPool
+//@   inlines limiter.NewDefaultLimiter
+//@   requires cfg: 1 <= fixedLimit && fixedLimit <= MaxInt32 && windowSize <= 1000000 && minWindowTime <= 1<<60 && maxWindowTime <= 1<<60 && minRTTThreshold <= 1<<60
+//@   ensures[C19] built: ret0 != nil ==> ret1 == nil && ret0.limit == fixedLimit && ret0.ordering == ordering && ret0.limiter != nil
+//@   ensures[C11] fifo_pool: ret0 != nil && ordering == 1 ==> dyntype(ret0.limiter, "*limiter.QueueBlockingLimiter") && poolQueue(ret0.limiter).backlog.ordering == "fifo"
+//@   ensures[C11] lifo_pool: ret0 != nil && ordering == 2 ==> dyntype(ret0.limiter, "*limiter.QueueBlockingLimiter") && poolQueue(ret0.limiter).backlog.ordering == "lifo"
+//@   ensures[C11,C19] random_pool: ret0 != nil && ordering != 1 && ordering != 2 ==> dyntype(ret0.limiter, "*limiter.BlockingLimiter") && as(ret0.limiter, "*limiter.BlockingLimiter").timeout == max(0, timeout)
+//@   ensures[C12,C13] queue_settings: ret0 != nil && (ordering == 1 || ordering == 2) ==> poolQueue(ret0.limiter).maxBacklogSize == uint64(ite(maxBacklog <= 0, 100, maxBacklog)) && poolQueue(ret0.limiter).maxBacklogTimeout == ite(max(0, timeout) == 0, 1000000000, max(0, timeout))
+//@   ensures[C19] gate_is_a_precise_strategy_at_the_pool_limit: ret0 != nil ==> ncalls("strategy.NewPreciseStrategy") == 1 && callarg("strategy.NewPreciseStrategy", 0, 0) == fixedLimit && callres("strategy.NewPreciseStrategy", 0, 0).limit == fixedLimit && callres("strategy.NewPreciseStrategy", 0, 0).inFlight == 0
+//@   ensures[C19] estimate_is_fixed: ncalls("limit.NewFixedLimit") == 1 && callarg("limit.NewFixedLimit", 0, 1) == fixedLimit
+//@ define poolQueue(l core.Limiter) *limiter.QueueBlockingLimiter = as(l, "*limiter.QueueBlockingLimiter")
+
+//@ func NewPool
+//@   ensures[C19] rejects_nil: delegateLimiter == nil ==> ret0 == nil && ret1 != nil
+//@   ensures[C11] fifo_pool: delegateLimiter != nil && ordering == 1 ==> ret0 != nil && dyntype(ret0.limiter, "*limiter.QueueBlockingLimiter") && poolQueue(ret0.limiter).backlog.ordering == "fifo" && poolQueue(ret0.limiter).delegate == delegateLimiter
+//@   ensures[C11] lifo_pool: delegateLimiter != nil && ordering == 2 ==> ret0 != nil && dyntype(ret0.limiter, "*limiter.QueueBlockingLimiter") && poolQueue(ret0.limiter).backlog.ordering == "lifo" && poolQueue(ret0.limiter).delegate == delegateLimiter
+//@   ensures[C11,C19] random_pool: delegateLimiter != nil && ordering != 1 && ordering != 2 ==> ret0 != nil && dyntype(ret0.limiter, "*limiter.BlockingLimiter") && as(ret0.limiter, "*limiter.BlockingLimiter").delegate == delegateLimiter && as(ret0.limiter, "*limiter.BlockingLimiter").timeout == max(0, timeout)
+
+//@ func (*FixedPool).Acquire
+//@   requires built: p.limiter != nil
+//@   ensures[C19] delegates: ncalls("core.Limiter.Acquire") == 1 && callrecv("core.Limiter.Acquire", 0) == p.limiter && callarg("core.Limiter.Acquire", 0, 0) == ctx && ret0 == callres("core.Limiter.Acquire", 0, 0) && ret1 == callres("core.Limiter.Acquire", 0, 1)
+//@ func (*Pool).Acquire
+//@   requires built: p.limiter != nil
+//@   ensures[C19] delegates: ncalls("core.Limiter.Acquire") == 1 && callrecv("core.Limiter.Acquire", 0) == p.limiter && callarg("core.Limiter.Acquire", 0, 0) == ctx && ret0 == callres("core.Limiter.Acquire", 0, 0) && ret1 == callres("core.Limiter.Acquire", 0, 1)
